@@ -554,19 +554,97 @@ func runSchedule(w *harness.W, r gen.R, n int) {
 			Hook:   []string{"ansi.timer.fired", "ansi.timer.beforeReset"}[r.Intn(2)],
 			End:    []string{"next", "eof", "close"}[r.Intn(3)],
 		}
+		if i%3 == 2 {
+			// the application is not reading when the timeout fires: the
+			// callback waits for room in the output channel (two items are
+			// ahead of the Escape), the next bytes arrive meanwhile
+			tc.Hook, tc.End, tc.GapMs = "", "slow-consumer", 150
+			tc.Before = hex.EncodeToString([]byte([]string{"ab", "a\u00e9", "\x1b[1mz"}[r.Intn(3)]))
+		}
 		cj, _ := json.Marshal(tc)
 		w.Begin(string(cj))
-		key, det, obs, exp, crashed := evalSchedule(tc)
+		var key, det, obs, exp string
+		var crashed bool
+		if tc.End == "slow-consumer" {
+			key, det, obs, exp = evalSlowConsumer(tc)
+		} else {
+			key, det, obs, exp, crashed = evalSchedule(tc)
+		}
 		w.End()
 		w.Case(string(cj))
 		w.Count("schedule_cases", 1)
 		w.Distinct("schedules", tc.Hook+"/"+tc.End)
 		_ = crashed
 		if key != "" {
-			w.Violation(key, det+" (injected schedule: callback parked at "+tc.Hook+" while "+tc.End+" is processed)", tc, obs, exp)
+			if tc.End == "slow-consumer" {
+				w.Violation(key, det, tc, obs, exp)
+			} else {
+				w.Violation(key, det+" (injected schedule: callback parked at "+tc.Hook+" while "+tc.End+" is processed)", tc, obs, exp)
+			}
 		}
 		w.Sample(tc)
 	}
+}
+
+// evalSlowConsumer: two items wait unread in the output channel, a lone ESC is
+// followed by silence, the timeout fires and has to wait for the consumer;
+// the next bytes arrive before the consumer reads on.
+func evalSlowConsumer(tc timingCase) (key, detail, observed, expected string) {
+	before, _ := hex.DecodeString(tc.Before)
+	after, _ := hex.DecodeString(tc.After)
+	first := append(append([]byte(nil), before...), 0x1b)
+	data := append(append([]byte(nil), first...), after...)
+	rd := &parserun.Reader{Data: data, Chunks: []int{len(first)}}
+	start := make(chan struct{})
+	var once sync.Once
+	rd.Gate = func(readNo int, off int) {
+		if off == len(first) {
+			time.Sleep(time.Duration(tc.GapMs) * time.Millisecond)
+			once.Do(func() {
+				go func() {
+					// the rest has been handed to the parser: let it work on it
+					time.Sleep(60 * time.Millisecond)
+					close(start)
+				}()
+			})
+		}
+	}
+	var obs parserun.Obs
+	p := ansi.NewParser(rd)
+	done := make(chan struct{})
+	go func() {
+		defer close(done)
+		select {
+		case <-start:
+		case <-time.After(10 * time.Second):
+		}
+		for seq := range p.Next() {
+			obs.Flatten(seq)
+			p.Finish(seq)
+		}
+		obs.Closed = true
+	}()
+	select {
+	case <-done:
+	case <-time.After(30 * time.Second):
+		return "lifecycle:no-close-within-bound", "parser did not close its channel (consumer started late)", fmt.Sprint(obs.Toks), "EOF then close"
+	}
+	runes := refparse.Decode(first)
+	withT := append(append([]rune(nil), runes...), refparse.TimeoutRune)
+	withT = append(withT, refparse.Decode(after)...)
+	without := append(append([]rune(nil), runes...), refparse.Decode(after)...)
+	if !refparse.Match(withT, obs.Toks, nil).OK && !refparse.Match(without, obs.Toks, nil).OK {
+		var l []string
+		for _, t := range obs.Toks {
+			l = append(l, t.String())
+		}
+		var e []string
+		for _, t := range refparse.Expected(withT) {
+			e = append(e, t.String())
+		}
+		return "timing:garbled:consumer-not-reading-when-the-timeout-fires", fmt.Sprintf("two items unread in the output channel, ESC, %dms of silence (the timeout fires and waits for room), then %q before the consumer reads on: the bytes after the Escape must be parsed from ground", tc.GapMs, after), strings.Join(l, " "), strings.Join(e, " ")
+	}
+	return "", "", "", ""
 }
 
 func evalSchedule(tc timingCase) (key, detail, observed, expected string, crashed bool) {
@@ -780,7 +858,9 @@ func (c check) Replay(w *harness.W, raw json.RawMessage) {
 		var tc timingCase
 		json.Unmarshal(raw, &tc)
 		var k, d, o, ex string
-		if tc.Hook != "" {
+		if tc.End == "slow-consumer" {
+			k, d, o, ex = evalSlowConsumer(tc)
+		} else if tc.Hook != "" {
 			k, d, o, ex, _ = evalSchedule(tc)
 		} else {
 			k, d, o, ex = evalTiming(tc)
